@@ -429,4 +429,323 @@ Section Proofs.
     rewrite Hr in Hc. inversion Hc; subst c. reflexivity.
   Qed.
 
+  (** * 4. the runners are schedules *)
+  Lemma exec_b_cons b pr p items a s st :
+    exec_b' b pr p items (a :: s) st =
+    exec_b' b pr p items s (sys_step_b V name fnv size b pr p items st a).
+  Proof. reflexivity. Qed.
+
+  Lemma exec_b_spent b pr p items sched st :
+    spent V b st = true -> exec_b' b pr p items sched st = st.
+  Proof.
+    intros H. induction sched as [|a s IH]; [reflexivity|].
+    rewrite exec_b_cons. unfold sys_step_b. rewrite H. exact IH.
+  Qed.
+
+  Lemma exec_b_None pr p items sched : forall st,
+    exec_b' None pr p items sched st = exec' pr p items sched st.
+  Proof.
+    induction sched as [|a s IH]; intros st; [reflexivity|].
+    rewrite exec_b_cons, exec_cons. unfold sys_step_b. simpl. apply IH.
+  Qed.
+
+  (** D. *)
+  Lemma exec_b_is_prefix :
+    forall b pr p items sched st,
+      exists n, exec_b V name fnv size b pr p items sched st = exec V name fnv size pr p items (firstn n sched) st.
+  Proof.
+    intros b pr p items sched. induction sched as [|a s IH]; intros st.
+    - exists 0. reflexivity.
+    - destruct (spent V b st) eqn:E.
+      + exists 0. rewrite exec_b_spent by exact E. reflexivity.
+      + rewrite exec_b_cons. unfold sys_step_b. rewrite E.
+        destruct (IH (sys_step' pr p items st a)) as [n Hn].
+        exists (S n). rewrite Hn. reflexivity.
+  Qed.
+
+  Lemma run_seq_aux_is_schedule b pr p items : forall n i st,
+    exists sched, run_seq_aux V name fnv size b pr p items n i st = exec' pr p items sched st.
+  Proof.
+    induction n as [|n IH]; intros i st.
+    - exists []. reflexivity.
+    - cbn [run_seq_aux].
+      destruct (exec_b_is_prefix b pr p items (block' items i) st) as [m Hm].
+      rewrite Hm.
+      destruct (done_ok V (exec' pr p items (firstn m (block' items i)) st) i).
+      + destruct (IH (S i) (exec' pr p items (firstn m (block' items i)) st)) as [s2 Hs2].
+        exists (firstn m (block' items i) ++ s2). rewrite exec_app. exact Hs2.
+      + exists (firstn m (block' items i)). reflexivity.
+  Qed.
+
+  Lemma run_seq_is_schedule :
+    forall b pr p items f0,
+      exists sched, run_seq V name fnv size b pr p items f0 = exec V name fnv size pr p items sched (init items f0).
+  Proof.
+    intros b pr p items f0. unfold run_seq. apply run_seq_aux_is_schedule.
+  Qed.
+
+  Lemma run_par_exit_is_schedule :
+    forall pr p items f0 c e,
+      exists sched, run_par_exit V name fnv size pr p items f0 c e = exec V name fnv size pr p items sched (init items f0).
+  Proof.
+    intros pr p items f0 c e. unfold run_par_exit.
+    destruct (exec_b_is_prefix (Some e) pr p items (block' items c) (init items f0)) as [m Hm].
+    rewrite Hm. eexists. rewrite <- exec_app. reflexivity.
+  Qed.
+
+  (** * 5. the runners complete *)
+  Lemma count_occ_blocks items i l :
+    In i l ->
+    count_occ Nat.eq_dec (block' items i) i <=
+    count_occ Nat.eq_dec (concat (map (block' items) l)) i.
+  Proof.
+    induction l as [|a l IH]; intros Hin; [destruct Hin|].
+    simpl. rewrite count_occ_app. destruct (Nat.eq_dec a i) as [E|Hne].
+    - subst a. lia.
+    - destruct Hin as [E|Hin]; [contradiction|]. specialize (IH Hin). lia.
+  Qed.
+
+  Lemma run_seq_aux_ok p items : names_distinct name items -> forall n i st,
+    Inv p items st -> i + n = length items ->
+    (forall j, i <= j -> j < length items -> nth_error (s_pcs st) j = Some PStart) ->
+    exists sched,
+      run_seq_aux V name fnv size None SaveTempReplace p items n i st
+      = exec' SaveTempReplace p items sched st
+      /\ forall j k x, i <= j -> nth_error items j = Some (k, x) ->
+                       wfuel' x <= count_occ Nat.eq_dec sched j.
+  Proof.
+    intros Hnd. induction n as [|n IH]; intros i st HInv Hlen Hstart.
+    - exists []. split; [reflexivity|]. intros j k x Hij Hj.
+      apply nth_error_Some_lt in Hj. lia.
+    - assert (Hlt : i < length items) by lia.
+      destruct (nth_error_lt_Some items i Hlt) as [[k x] Hi].
+      cbn [run_seq_aux]. rewrite exec_b_None. unfold block at 1 2. rewrite Hi.
+      set (st' := exec' SaveTempReplace p items (repeat i (wfuel' x)) st).
+      assert (HInv' : Inv p items st') by (apply Inv_exec; assumption).
+      destruct (exec_rem SaveTempReplace p items (repeat i (wfuel' x)) st i k x PStart Hi)
+        as [c' [Hc' Hr]].
+      { apply Hstart; [lia | exact Hlt]. }
+      fold st' in Hc'. rewrite count_occ_repeat_same in Hr. unfold wfuel in Hr. simpl in Hr.
+      destruct (remt_zero x c') as [r Hr']; [lia|]. subst c'.
+      destruct HInv' as [Hlen' Hw'].
+      destruct (Hw' i k x _ Hi Hc') as [_ [Hrr _]]. subst r.
+      assert (Hd : done_ok V st' i = true) by (unfold done_ok; rewrite Hc'; reflexivity).
+      rewrite Hd.
+      destruct (IH (S i) st') as [s2 [Hs2 Hcnt]].
+      + split; assumption.
+      + lia.
+      + intros j Hij Hj. unfold st'. rewrite exec_repeat_other by lia.
+        apply Hstart; [lia | exact Hj].
+      + exists (repeat i (wfuel' x) ++ s2). split.
+        * rewrite exec_app. exact Hs2.
+        * intros j k0 x0 Hij Hj. rewrite count_occ_app.
+          destruct (Nat.eq_dec i j) as [E|Hne].
+          -- subst j. rewrite Hi in Hj. inversion Hj; subst k0 x0.
+             rewrite count_occ_repeat_same. lia.
+          -- assert (Hsj : S i <= j) by lia. specialize (Hcnt j k0 x0 Hsj Hj). lia.
+  Qed.
+
+  (** E. *)
+  Lemma run_seq_correct :
+    forall pr, pr = SaveTempReplace ->
+    forall items f0 p,
+      names_distinct name items -> Good V name fnv size items f0 ->
+      let st := run_seq V name fnv size None pr p items f0 in
+      all_done st = true
+      /\ collect items (s_pcs st) = Some (run_uncached V fnv items)
+      /\ AllCached V name fnv size items (s_fs st).
+  Proof.
+    intros pr -> items f0 p Hnd Hg st. unfold run_seq in st.
+    destruct (run_seq_aux_ok p items Hnd (length items) 0 (init items f0))
+      as [sched [Heq Hcnt]].
+    - apply Inv_init. exact Hg.
+    - reflexivity.
+    - intros j _ Hj. simpl. apply nth_error_const_map. exact Hj.
+    - subst st. rewrite Heq.
+      assert (Hdone : all_done (exec' SaveTempReplace p items sched (init items f0)) = true).
+      { apply fair_schedule_completes. intros i k x Hi. apply (Hcnt i k x); [lia | exact Hi]. }
+      split; [exact Hdone|].
+      exact (complete_run_correct SaveTempReplace eq_refl items f0 p sched Hnd Hg Hdone).
+  Qed.
+
+  Lemma run_par_correct :
+    forall pr, pr = SaveTempReplace ->
+    forall items f0 p,
+      names_distinct name items -> Good V name fnv size items f0 ->
+      let st := run_par V name fnv size pr p items f0 in
+      all_done st = true
+      /\ collect items (s_pcs st) = Some (run_uncached V fnv items)
+      /\ AllCached V name fnv size items (s_fs st).
+  Proof.
+    intros pr -> items f0 p Hnd Hg st. unfold run_par in st. subst st.
+    assert (Hdone : all_done (exec' SaveTempReplace p items (all_blocks V fnv size items)
+                                    (init items f0)) = true).
+    { apply fair_schedule_completes. intros i k x Hi. unfold all_blocks.
+      eapply Nat.le_trans; [|apply count_occ_blocks].
+      - unfold block. rewrite Hi. rewrite count_occ_repeat_same. lia.
+      - apply in_seq. apply nth_error_Some_lt in Hi. lia. }
+    split; [exact Hdone|].
+    exact (complete_run_correct SaveTempReplace eq_refl items f0 p _ Hnd Hg Hdone).
+  Qed.
+
+  (** * 6. fully cached directory *)
+  Definition pc_cached (x : N) (c : pc V) : Prop :=
+    c = PStart \/ c = PLoad \/ c = PDone (Ok (fnv x)).
+
+  Definition InvC (items : list (N * N)) (f0 : fs V) (st : sys V) : Prop :=
+    s_calls st = 0%N /\ s_effs st = 0%N /\ (forall q, s_fs st q = f0 q) /\
+    forall i k x c, nth_error items i = Some (k, x) -> nth_error (s_pcs st) i = Some c ->
+                    pc_cached x c.
+
+  Lemma step1_cached pr p k x f c :
+    f (Final (name k)) = whole' x -> pc_cached x c ->
+    exists c', step1' pr p k x f c = (f, c', false, false) /\ pc_cached x c'.
+  Proof.
+    unfold whole. intros Hf [Hc|[Hc|Hc]]; subst c; simpl; rewrite ?Hf.
+    - exists PLoad. split; [reflexivity|]. right; left; reflexivity.
+    - rewrite Nat.eqb_refl. exists (PDone (Ok (fnv x))). split; [reflexivity|].
+      right; right; reflexivity.
+    - exists (PDone (Ok (fnv x))). split; [reflexivity|]. right; right; reflexivity.
+  Qed.
+
+  Lemma InvC_step pr p items f0 st a :
+    AllCached' items f0 -> InvC items f0 st -> InvC items f0 (sys_step' pr p items st a).
+  Proof.
+    intros Hac (Hcl & Hef & Hfs & Hpc).
+    destruct (sys_step_cases pr p items st a)
+      as [(k & x & c & f' & c' & cl & ef & Hi & Hc & Hs & Heq) | [Hnone Heq]]; rewrite Heq;
+      [|repeat split; assumption].
+    destruct (step1_cached pr p k x (s_fs st) c) as [c1 [Hs1 Hc1]].
+    { rewrite Hfs. apply Hac. eapply nth_error_In. exact Hi. }
+    { eapply Hpc; eassumption. }
+    rewrite Hs1 in Hs. inversion Hs; subst f' c' cl ef.
+    unfold InvC; simpl. repeat split; try assumption.
+    intros i0 k0 x0 c0 Hi0 Hc0. destruct (Nat.eq_dec a i0) as [E|Hne].
+    - subst i0. rewrite nth_error_set_nth_eq in Hc0 by (eapply nth_error_Some_lt; exact Hc).
+      inversion Hc0; subst c0. rewrite Hi in Hi0. inversion Hi0; subst k0 x0. exact Hc1.
+    - rewrite nth_error_set_nth_neq in Hc0 by exact Hne. eapply Hpc; eassumption.
+  Qed.
+
+  Lemma InvC_exec pr p items f0 sched :
+    AllCached' items f0 -> forall st, InvC items f0 st -> InvC items f0 (exec' pr p items sched st).
+  Proof.
+    intros Hac. induction sched as [|a s IH]; intros st H; [exact H|].
+    rewrite exec_cons. apply IH. apply InvC_step; assumption.
+  Qed.
+
+  (** F. *)
+  Lemma cached_run_no_recompute :
+    forall pr items f0 p sched,
+      AllCached V name fnv size items f0 ->
+      let st := exec V name fnv size pr p items sched (init items f0) in
+      s_calls st = 0%N /\ s_effs st = 0%N /\ (forall q, s_fs st q = f0 q)
+      /\ (all_done st = true -> collect items (s_pcs st) = Some (run_uncached V fnv items)).
+  Proof.
+    intros pr items f0 p sched Hac st.
+    assert (HI : InvC items f0 st).
+    { apply InvC_exec; [exact Hac|]. unfold InvC; simpl. repeat split.
+      intros i k x c Hi Hc.
+      rewrite nth_error_const_map in Hc by (eapply nth_error_Some_lt; exact Hi).
+      inversion Hc. left; reflexivity. }
+    destruct HI as (Hcl & Hef & Hfs & Hpc).
+    repeat split; try assumption.
+    intros Hdone. apply collect_all_ok. intros i k x Hi.
+    destruct (nth_error_lt_Some (s_pcs st) i) as [c Hc].
+    { unfold st. rewrite exec_length. simpl. rewrite map_length.
+      eapply nth_error_Some_lt. exact Hi. }
+    destruct (all_done_nth st i c Hdone Hc) as [r Hr].
+    destruct (Hpc i k x c Hi Hc) as [E|[E|E]]; subst c; try discriminate.
+    inversion E; subst r. exact Hc.
+  Qed.
+
+  (** * 7. the direct write *)
+  Definition pc_torn (c : pc V) : Prop := c = PStart \/ c = PLoad \/ c = PDone Raised.
+
+  Definition InvG (i : nat) (k : N) (v : V) (j : nat) (st : sys V) : Prop :=
+    s_fs st (Final (name k)) = Some (v, j) /\
+    forall c, nth_error (s_pcs st) i = Some c -> pc_torn c.
+
+  Lemma step1_torn pr p k x f c v j :
+    f (Final (name k)) = Some (v, j) -> j <> size v -> pc_torn c ->
+    exists c', step1' pr p k x f c = (f, c', false, false) /\ pc_torn c'.
+  Proof.
+    intros Hf Hj [Hc|[Hc|Hc]]; subst c; simpl; rewrite ?Hf.
+    - exists PLoad. split; [reflexivity|]. right; left; reflexivity.
+    - apply Nat.eqb_neq in Hj. rewrite Hj. exists (PDone Raised). split; [reflexivity|].
+      right; right; reflexivity.
+    - exists (PDone Raised). split; [reflexivity|]. right; right; reflexivity.
+  Qed.
+
+  Lemma InvG_step p items st a i k x v j :
+    names_distinct name items -> nth_error items i = Some (k, x) -> j <> size v ->
+    InvG i k v j st -> InvG i k v j (sys_step' SaveDirect p items st a).
+  Proof.
+    intros Hnd Hi Hj [Hf Hpc].
+    destruct (sys_step_cases SaveDirect p items st a)
+      as [(k0 & x0 & c & f' & c' & cl & ef & Hi0 & Hc & Hs & Heq) | [Hnone Heq]]; rewrite Heq;
+      [|split; assumption].
+    unfold InvG; simpl. destruct (Nat.eq_dec a i) as [E|Hne].
+    - subst a. rewrite Hi in Hi0. inversion Hi0; subst k0 x0.
+      destruct (step1_torn SaveDirect p k x (s_fs st) c v j Hf Hj (Hpc c Hc)) as [c1 [Hs1 Hc1]].
+      rewrite Hs1 in Hs. inversion Hs; subst f' c' cl ef.
+      split; [exact Hf|]. intros c0 Hc0.
+      rewrite nth_error_set_nth_eq in Hc0 by (eapply nth_error_Some_lt; exact Hc).
+      inversion Hc0; subst c0. exact Hc1.
+    - assert (Hn : name k0 <> name k).
+      { eapply names_distinct_nth; [exact Hnd | exact Hi0 | exact Hi | exact Hne]. }
+      split.
+      + rewrite <- Hf. eapply step1_frame; [exact Hs | congruence | congruence].
+      + intros c0 Hc0. rewrite nth_error_set_nth_neq in Hc0 by exact Hne. apply Hpc. exact Hc0.
+  Qed.
+
+  Lemma InvG_exec p items sched i k x v j :
+    names_distinct name items -> nth_error items i = Some (k, x) -> j <> size v ->
+    forall st, InvG i k v j st -> InvG i k v j (exec' SaveDirect p items sched st).
+  Proof.
+    intros Hnd Hi Hj. induction sched as [|a s IH]; intros st H; [exact H|].
+    rewrite exec_cons. apply IH. eapply InvG_step; eassumption.
+  Qed.
+
+  Lemma collect_raised : forall items (pcs : list (pc V)) i,
+    i < length items -> nth_error pcs i = Some (PDone Raised) -> collect items pcs = None.
+  Proof.
+    induction items as [|[k x] r IH]; intros pcs i Hlt Hc; simpl in Hlt; [lia|].
+    destruct pcs as [|c cs]; [reflexivity|].
+    destruct i as [|i]; simpl in Hc.
+    - inversion Hc; subst c. reflexivity.
+    - simpl. destruct c as [| | |v0|v0 j0|v0|[v0|]]; try reflexivity.
+      rewrite (IH cs i); [reflexivity | lia | exact Hc].
+  Qed.
+
+  (** G. *)
+  Lemma direct_torn_poisons :
+    forall pr, pr = SaveDirect ->
+    forall items f0 p sched i k x v j,
+      names_distinct name items ->
+      nth_error items i = Some (k, x) ->
+      f0 (Final (name k)) = Some (v, j) -> j <> size v ->
+      let st := exec V name fnv size pr p items sched (init items f0) in
+      s_fs st (Final (name k)) = Some (v, j)
+      /\ (forall r, nth_error (s_pcs st) i = Some (PDone r) -> r = Raised)
+      /\ (all_done st = true -> collect items (s_pcs st) = None).
+  Proof.
+    intros pr -> items f0 p sched i k x v j Hnd Hi Hf0 Hj st.
+    assert (HI : InvG i k v j st).
+    { eapply InvG_exec; try eassumption. split; simpl; [exact Hf0|].
+      intros c Hc.
+      rewrite nth_error_const_map in Hc by (eapply nth_error_Some_lt; exact Hi).
+      inversion Hc. left; reflexivity. }
+    destruct HI as [Hf Hpc]. split; [exact Hf|]. split.
+    - intros r Hr. destruct (Hpc _ Hr) as [E|[E|E]]; try discriminate.
+      inversion E. reflexivity.
+    - intros Hdone.
+      destruct (nth_error_lt_Some (s_pcs st) i) as [c Hc].
+      { unfold st. rewrite exec_length. simpl. rewrite map_length.
+        eapply nth_error_Some_lt. exact Hi. }
+      destruct (all_done_nth st i c Hdone Hc) as [r Hr].
+      destruct (Hpc c Hc) as [E|[E|E]]; subst c; try discriminate.
+      inversion E; subst r.
+      eapply collect_raised; [|exact Hc]. eapply nth_error_Some_lt. exact Hi.
+  Qed.
+
 End Proofs.
